@@ -12,6 +12,7 @@ import (
 	"github.com/bmeg/grip/gdbi"
 	"github.com/bmeg/grip/gripql"
 	"github.com/bmeg/grip/kvgraph"
+	"github.com/bmeg/grip/kvindex"
 	"github.com/bmeg/grip/kvi"
 	"google.golang.org/protobuf/types/known/structpb"
 
@@ -28,6 +29,7 @@ type c16Input struct {
 	Label  bstr        `json:"label"`
 	From   bstr        `json:"from"`
 	To     bstr        `json:"to"`
+	Field  bstr        `json:"field,omitempty"` // keys: the index field name
 	Value  interface{} `json:"value,omitempty"`
 }
 type c16Obs struct {
@@ -82,6 +84,13 @@ func snapshotAll(db gdbi.GraphDB) map[string]interface{} {
 		}
 		sort.Strings(adj)
 		out["A:"+g] = adj
+		// which indices the graph is said to have
+		ix := []string{}
+		for i := range gi.GetVertexIndexList() {
+			ix = append(ix, fmt.Sprintf("%q.%q.%q", i.Graph, i.Label, i.Field))
+		}
+		sort.Strings(ix)
+		out["I:"+g] = ix
 		// what the label index says
 		labels, _ := gi.ListVertexLabels()
 		sort.Strings(labels)
@@ -115,7 +124,7 @@ func sameExcept(before, after map[string]interface{}, rm func(key string, items 
 		if !isNew && k == "L:g" {
 			continue
 		}
-		if isNew && (k == "V:"+newGraph || k == "E:"+newGraph || k == "A:"+newGraph || k == "L:"+newGraph) {
+		if isNew && (k == "V:"+newGraph || k == "E:"+newGraph || k == "A:"+newGraph || k == "L:"+newGraph || k == "I:"+newGraph) {
 			if _, had := before[k]; !had {
 				if l, ok := v.([]string); ok && len(l) == 0 {
 					continue
@@ -129,6 +138,18 @@ func sameExcept(before, after map[string]interface{}, rm func(key string, items 
 		}
 	}
 	return reflect.DeepEqual(before, a2)
+}
+
+// every key the store holds, in key order: a refused write must leave this as it was
+func rawKeys(kv kvi.KVInterface) []string {
+	out := []string{}
+	kv.View(func(it kvi.KVIterator) error {
+		for it.Seek([]byte{}); it.Valid(); it.Next() {
+			out = append(out, string(it.Key()))
+		}
+		return nil
+	})
+	return out
 }
 
 func execC16(in c16Input) c16Obs {
@@ -155,17 +176,17 @@ func execC16(in c16Input) c16Obs {
 		gi.AddEdge([]*gdbi.Edge{gdbi.NewElementFromEdge(&gripql.Edge{Gid: "ea", Label: "M", From: "ab", To: "b"})})
 	}
 	before := snapshotAll(db)
+	keysBefore := rawKeys(kv)
 	ctx := context.Background()
 	g := string(in.G)
 	switch in.Kind {
 	case "graph":
-		err := gripql.ValidateGraphName(g)
-		if err == nil {
-			err = db.AddGraph(g)
-		}
+		// the driver validates the name itself (callers such as kvload and embedded users rely on that); a refused name
+		// must leave no trace, index fields included
+		err := db.AddGraph(g)
 		after := snapshotAll(db)
 		if err != nil {
-			return c16Obs{Accepted: false, Others: reflect.DeepEqual(before, after)}
+			return c16Obs{Accepted: false, Others: reflect.DeepEqual(before, after) && reflect.DeepEqual(keysBefore, rawKeys(kv))}
 		}
 		// read back: listed exactly once, usable, isolated
 		cnt := 0
@@ -191,6 +212,17 @@ func execC16(in c16Input) c16Obs {
 			return l
 		}, g, true)
 		if gerr == nil && !already {
+			// an index added to the new graph is listed there and by no other graph
+			gi.AddVertexIndex("L", "n")
+			withIdx := snapshotAll(db)
+			for _, og := range []string{"g", "gg"} {
+				if !reflect.DeepEqual(before["I:"+og], withIdx["I:"+og]) {
+					others = false
+				}
+			}
+			if l, ok := withIdx["I:"+g].([]string); !ok || len(l) != 1 {
+				read = false
+			}
 			// a vertex written to the new graph appears there and nowhere else
 			gi.AddVertex([]*gdbi.Vertex{gdbi.NewElementFromVertex(&gripql.Vertex{Gid: "zz", Label: "L"})})
 			if v := gi.GetVertex("zz", true); v == nil {
@@ -253,7 +285,7 @@ func execC16(in c16Input) c16Obs {
 		}
 		after := snapshotAll(db)
 		if err != nil {
-			return c16Obs{Accepted: false, Others: reflect.DeepEqual(before, after), Note: err.Error()}
+			return c16Obs{Accepted: false, Others: reflect.DeepEqual(before, after) && reflect.DeepEqual(keysBefore, rawKeys(kv)), Note: err.Error()}
 		}
 		got := gi.GetVertex(id, true)
 		read := got != nil && got.ID == id && got.Label == label && reflect.DeepEqual(normJSON(got.Data), normJSON(data))
@@ -377,7 +409,7 @@ func normJSON(x interface{}) interface{} {
 func runC16(ctx *Ctx) error {
 	ctx.EvalMod = "Eval_C16"
 	ctx.CaseTy = "c16_case"
-	ctx.Rule = "graph names / vertex ids+labels / edge ids+labels+endpoints / property names over an alphabet of separator and control bytes, punctuation, unicode and internally reserved words, to length 3 (exhaustive to length 2 in thorough), written into a store that already holds elements whose ids are prefixes of one another; property values: nesting, empty containers, numeric extremes; non-trivial = accepted write; distinct by input"
+	ctx.Rule = "the key constructors of kvgraph/keys.go and kvindex/keys.go (graph, vertex, edge, by-source, by-destination, index entry and term keys and every prefix used to address one element, one label or one graph) on 250 random component tuples over separator bytes, prefixes of one another, reserved words and unicode, byte for byte against Model/Keys.v; graph names / vertex ids+labels / edge ids+labels+endpoints / property names over an alphabet of separator and control bytes, punctuation, unicode and internally reserved words, to length 3 (exhaustive to length 2 in thorough), plus every ASCII byte on its own and behind a letter as a graph name, written into a store that already holds elements whose ids are prefixes of one another; property values: nesting, empty containers, numeric extremes; non-trivial = accepted write; distinct by input"
 	var inputs []c16Input
 	if ctx.Replay != nil {
 		var in c16Input
@@ -403,6 +435,14 @@ func runC16(ctx *Ctx) error {
 				s += alpha[ctx.Rng.Intn(len(alpha))]
 			}
 			cands = append(cands, s)
+		}
+		// every single byte of the ASCII range on its own and behind a letter, as a graph name (and, thorough, as a property
+		// name): the punctuation list of gripql/util.go:validate against the one of Model/Keys.v, entry by entry
+		for b := 1; b < 128; b++ {
+			inputs = append(inputs, c16Input{Driver: "badger", Kind: "graph", G: bstr([]byte{byte(b)})}, c16Input{Driver: "badger", Kind: "graph", G: bstr([]byte{'a', byte(b)})})
+			if ctx.Thorough() {
+				inputs = append(inputs, c16Input{Driver: "badger", Kind: "field", ID: bstr([]byte{byte(b)})}, c16Input{Driver: "badger", Kind: "field", ID: bstr([]byte{'a', byte(b)})})
+			}
 		}
 		drivers := []string{"badger"}
 		if ctx.Thorough() {
@@ -441,11 +481,39 @@ func runC16(ctx *Ctx) error {
 			}
 		}
 	}
-	kinds := map[string]string{"graph": "KGraphName", "vertex": "KVertex", "edge": "KEdge", "field": "KFieldName", "value": "KValue"}
+	if ctx.Replay == nil {
+		// the key constructors themselves, byte for byte (the theorems of Properties/C16.v are about these strings):
+		// components over the same alphabet, separator bytes included
+		pool := []string{"g", "gg", "a", "ab", "L", "LL", "e", "x.v.label", "a\x00b", "\x00", "", "\xc3\xa9", "|", "v", "label", "a b", "\x01", "\xff"}
+		for i := 0; i < ctx.Pick(250, 2500); i++ {
+			pk := func() bstr { return bstr(pool[ctx.Rng.Intn(len(pool))]) }
+			inputs = append(inputs, c16Input{Driver: "none", Kind: "keys", G: pk(), ID: pk(), Label: pk(), From: pk(), To: pk(), Field: pk()})
+		}
+	}
+	kinds := map[string]string{"graph": "KGraphName", "vertex": "KVertex", "edge": "KEdge", "field": "KFieldName", "value": "KValue", "keys": "KKeys"}
 	for _, in := range inputs {
+		if in.Kind == "keys" {
+			g, v, l, sr, d, f := string(in.G), string(in.ID), string(in.Label), string(in.From), string(in.To), string(in.Field)
+			ks := [][]byte{kvgraph.GraphKey(g), kvgraph.VertexKey(g, v), kvgraph.VertexListPrefix(g), kvgraph.EdgeKey(g, v, sr, d, l, 1), kvgraph.EdgeKeyPrefix(g, v),
+				kvgraph.EdgeListPrefix(g), kvgraph.SrcEdgeKey(g, sr, d, v, l, 1), kvgraph.SrcEdgePrefix(g, sr), kvgraph.DstEdgeKey(g, sr, d, v, l, 1), kvgraph.DstEdgePrefix(g, d),
+				kvindex.EntryKey(f, kvindex.TermString, []byte(l), v), kvindex.EntryValuePrefix(f, kvindex.TermString, []byte(l)), kvindex.EntryPrefix(f),
+				kvindex.TermKey(f, kvindex.TermString, []byte(l)), kvindex.TermPrefix(f)}
+			items := make([]string, len(ks))
+			hex := make([]string, len(ks))
+			for i, k := range ks {
+				items[i] = bcoq(bstr(k))
+				hex[i] = fmt.Sprintf("%q", k)
+			}
+			c := coq.Record("ck", "KKeys", "cg", bcoq(in.G), "cid", bcoq(in.ID), "clabel", bcoq(in.Label), "cfrom", bcoq(in.From), "cto", bcoq(in.To),
+				"cacc", "true", "cread", "true", "cothers", "true", "cfield", bcoq(in.Field), "ckeys", coq.List(items))
+			key, _ := json.Marshal(in)
+			ctx.Add(Case{Input: in, Observed: hex, Coq: c, Nontrivial: true, Key: string(key), Tags: []string{"kind=keys"}})
+			continue
+		}
 		ob := execC16(in)
 		c := coq.Record("ck", kinds[in.Kind], "cg", bcoq(in.G), "cid", bcoq(in.ID), "clabel", bcoq(in.Label),
-			"cfrom", bcoq(in.From), "cto", bcoq(in.To), "cacc", coq.Bool(ob.Accepted), "cread", coq.Bool(ob.Read), "cothers", coq.Bool(ob.Others))
+			"cfrom", bcoq(in.From), "cto", bcoq(in.To), "cacc", coq.Bool(ob.Accepted), "cread", coq.Bool(ob.Read), "cothers", coq.Bool(ob.Others),
+			"cfield", "[]", "ckeys", "[]")
 		key, _ := json.Marshal(in)
 		acc := "rejected"
 		if ob.Accepted {
